@@ -196,6 +196,7 @@ pub fn v_domain(thorough: bool) -> Vec<RV> {
             v.push(s.build(&mut ls.into_iter()));
         }
     }
+    v.extend(crate::domains::quotation_forms());
     v
 }
 
